@@ -167,6 +167,9 @@ tagspec(struct scope *s)
 	unsigned long long value, max, min;
 	bool sign;
 	int i;
+#ifdef CPROC_VERIF
+	int vfixed = 0;
+#endif
 
 	allowedattr = 0;
 	switch (tok.kind) {
@@ -230,6 +233,11 @@ tagspec(struct scope *s)
 		next();
 		if (!b.pack)
 			t->size = ALIGNUP(t->size, t->align);
+#ifdef CPROC_VERIF
+		vtrace("{\"e\":\"tagend\",\"sid\":%llu,\"kind\":\"%s\",\"pk\":%d,\"size\":%llu,\"align\":%d}",
+			(unsigned long long)(size_t)t, t->kind == TYPEUNION ? "union" : "struct", (int)b.pack,
+			(unsigned long long)t->size, t->align);
+#endif
 		break;
 	case TYPEENUM:
 		enumconsts = NULL;
@@ -289,6 +297,9 @@ tagspec(struct scope *s)
 				break;
 		}
 		expect(TRBRACE, "to close enum specifier");
+#ifdef CPROC_VERIF
+		vfixed = t->base != NULL;
+#endif
 		if (!t->base) {
 			if (min <= 0x80000000 && max <= 0x7fffffff) {
 				t->base = min ? &typeint : &typeuint;
@@ -309,6 +320,14 @@ tagspec(struct scope *s)
 			t->align = t->base->align;
 			t->u.basic.issigned = t->base->u.basic.issigned;
 		}
+#ifdef CPROC_VERIF
+		vtrace("{\"e\":\"tagend\",\"sid\":%llu,\"kind\":\"enum\",\"fixed\":%d,\"min\":\"%016llx\",\"max\":\"%016llx\","
+			"\"size\":%llu,\"align\":%d,\"signed\":%d,\"base\":\"%s\"}",
+			(unsigned long long)(size_t)t, vfixed, min, max,
+			(unsigned long long)t->size, t->align, (int)t->u.basic.issigned,
+			t->base == &typeint ? "int" : t->base == &typeuint ? "uint" : t->base == &typelong ? "long" :
+			t->base == &typeulong ? "ulong" : t->base == &typellong ? "llong" : t->base == &typeullong ? "ullong" : "other");
+#endif
 	}
 	t->incomplete = false;
 
@@ -743,6 +762,13 @@ addmember(struct structbuilder *b, struct qualtype mt, char *name, int align, un
 	struct type *t = b->type;
 	struct member *m;
 	size_t end;
+#ifdef CPROC_VERIF
+	/* H4: state of the accumulator and arguments on entry */
+	int valign0 = align, vtalign0 = t->align;
+	unsigned long long vsize0 = t->size;
+	unsigned vbits0 = b->bits;
+	bool vflex0 = t->flexible;
+#endif
 
 	if (t->kind == TYPESTRUCT && t->flexible)
 		error(&tok.loc, "struct has member '%s' after flexible array member", name);
@@ -826,6 +852,18 @@ addmember(struct structbuilder *b, struct qualtype mt, char *name, int align, un
 	}
 	if (m && t->align < align)
 		t->align = align;
+#ifdef CPROC_VERIF
+	vtrace("{\"e\":\"member\",\"sid\":%llu,\"un\":%d,\"pk\":%d,\"msize\":%llu,\"malign\":%d,\"mflex\":%d,\"mint\":%d,"
+		"\"width\":%lld,\"alignas\":%d,\"named\":%d,\"hasm\":%d,"
+		"\"size0\":%llu,\"align0\":%d,\"bits0\":%u,\"flex0\":%d,"
+		"\"off\":%llu,\"before\":%u,\"after\":%u,\"size\":%llu,\"align\":%d,\"bits\":%u,\"flex\":%d}",
+		(unsigned long long)(size_t)t, t->kind == TYPEUNION, (int)b->pack,
+		(unsigned long long)mt.type->size, mt.type->align, mt.type->incomplete || mt.type->flexible, !!(mt.type->prop & PROPINT),
+		(long long)width, valign0, name != NULL, m != NULL,
+		vsize0, vtalign0, vbits0, (int)vflex0,
+		m ? (unsigned long long)m->offset : 0ull, m ? m->bits.before : 0u, m ? m->bits.after : 0u,
+		(unsigned long long)t->size, t->align, b->bits, (int)t->flexible);
+#endif
 }
 
 static bool
